@@ -238,7 +238,19 @@ def main():
     orde = head + ("Inductive action := AValidate | AReadOnly | AEffect.\n\n"
                    "Definition order : list (string * list (action * string)) := [\n")
     orde += ";\n".join("  (%s, [%s])" % (q(n), ";\n     ".join("(%s, %s)" % (a, q(t)) for a, t in acts)) for n, acts in sorted(order.items()))
-    orde += "\n].\n"
+    orde += "\n].\n\n(* callee names of selected functions in lexical (= evaluation, for straight-line code) order *)\n"
+    sel = ["FileBuilder._build_file", "FileBuilder._handle_error_building_file", "FileBuilder._build", "FileBuilder._roll_back",
+           "FileBuilder._try_to_reuse_cached_file", "FileBuilder._subbuild", "FileBuilder._rebuild_file"]
+    rows = []
+    for n, _, _, fn in funcs:
+        if n in sel:
+            cs = []
+            for c in sorted((c for c in ast.walk(fn) if isinstance(c, ast.Call)), key=lambda c: (c.lineno, c.col_offset)):
+                f = c.func
+                cs.append(f.attr if isinstance(f, ast.Attribute) else (f.id if isinstance(f, ast.Name) else "?"))
+            rows.append("  (%s, [%s])" % (q(n), "; ".join(q(x) for x in cs)))
+    orde += "Definition call_order : list (string * list string) := [\n" + ";\n".join(rows) + "\n]."
+    orde += "\n"
     write_if_changed(os.path.join(outdir, "Order.v"), orde, "order")
 
 
